@@ -93,7 +93,7 @@ var c02Check = register("C02", "c02.roundtrip", func(c *roundCase) error {
 	return nil
 })
 
-const c02Rule = "C02: (a) the C01 pairwise table through NewMnemonicByEntropy -> CheckMnemonic/IsMnemonicValid (every word of every list at every position); (b) rapid structured entropies (k leading zero bytes for k=1..size, all-ones, runs) through NewMnemonicByEntropy and through NewMnemonic fed by a scripted source; (c) NewMnemonic with the default source for every (n, language); (d) sentences assembled directly from golden words with a reference-solved last word, joined by U+0020 (and U+3000 for Japanese). Non-trivial: the entropy's first byte is 0x00, or it is all ones, or the case comes from the table or from the default source (none of which the suite's vectors reach); distinct by (source, language, entropy)"
+const c02Rule = "C02: (a) the C01 pairwise table through NewMnemonicByEntropy -> CheckMnemonic/IsMnemonicValid (every word of every list at every position); (b) rapid structured entropies (k leading zero bytes for k=1..size, all-ones, runs) through NewMnemonicByEntropy and through NewMnemonic fed by a scripted source; (c) NewMnemonic with the default source for every (n, language); (d) sentences assembled directly from golden words with a reference-solved last word \u2014 random ones and, for every language and count, the sentences of extreme byte length (24 longest / shortest words of the list) \u2014 joined by U+0020 (and U+3000 for Japanese). Non-trivial: the entropy's first byte is 0x00, or it is all ones, or the case comes from the table or from the default source (none of which the suite's vectors reach); distinct by (source, language, entropy)"
 
 func c02Record(c *roundCase) {
 	cov.Eval(1)
@@ -153,6 +153,29 @@ func TestC02_Table(t *testing.T) {
 				c := &roundCase{Lang: l.Name(), Source: src, Entropy: bytes.Repeat([]byte{0xff}, size), Shape: "table-allones"}
 				c02Record(c)
 				judge(t, "c02.roundtrip", c02Check, c)
+			}
+		}
+	}
+	// sentences of extreme byte length: the longest and the shortest words of every list, every count
+	for _, l := range allLangs() {
+		if !mine(int(l)) {
+			continue
+		}
+		for _, n := range ref.Counts {
+			for variant := 0; variant < pick(4, 24); variant++ {
+				for _, longest := range []bool{true, false} {
+					idx := gen.ExtremeIndices(l, n, longest, variant)
+					for _, sep := range []string{" ", l.Sep()} {
+						c := &roundCase{Lang: l.Name(), Source: "indices", Indices: idx, Sep: sep, Shape: "table-extreme-length"}
+						c02Record(c)
+						cov.ClassN("extreme-length-sentence-bytes", len(strings.Join(ref.Words(l, idx), sep)))
+						judge(t, "c02.roundtrip", c02Check, c)
+					}
+					e, _ := ref.Unpack(idx)
+					c := &roundCase{Lang: l.Name(), Source: "entropy", Entropy: e, Shape: "table-extreme-length"}
+					c02Record(c)
+					judge(t, "c02.roundtrip", c02Check, c)
+				}
 			}
 		}
 	}
